@@ -9,10 +9,11 @@ Comma-separated prefix tokens, texts as in `Text.enc`.
            | v <text> ty | b <text> ty | m <text> ty     verification fn / builtin / method (with return type)
            | L ty | S ty | O ty              List / Set / Optional
     decls := <n> our*n <n> fn*n <n> const*n
-    our   := C <text> <n> (<text> ty)*n <n> (<text> ty)*n <n> <text>*n     class: props, methods, descendants
-           | N <text> <n> <text>*n                                         enumeration: literals
-           | P <text> ty                                                   constrained primitive (ty is a primitive)
-    fn    := <text> <nargs> ty
+    our   := C <text> <n> (<text> ty)*n <n> meth*n <n> <text>*n     class: props, methods, descendants
+           | N <text> <n> <text>*n                                  enumeration: literals
+           | P <text> ty <0|1> <n> <text>*n                         constrained primitive (ty is a primitive), has invariants, descendants
+    meth  := <text> <k> ty*k ty                                     name, declared argument types, return type
+    fn    := <text> <k> ty*k ty
     const := <text> ty
 -/
 namespace AasVerif.Expr.TyWire
@@ -62,25 +63,35 @@ def pCounted {α : Type} (p : P α) : P (List α) := fun ts => do
 def pNamedTy : P (Text × Ty) := fun ts => do
   let (n, ts) ← pText ts; let (τ, ts) ← pTy ts; some ((n, τ), ts)
 
+/-- name, declared argument types, return type -/
+def pSig : P (Text × List Ty × Ty) := fun ts => do
+  let (n, ts) ← pText ts; let (ps, ts) ← pCounted pTy ts; let (r, ts) ← pTy ts
+  some ((n, ps, r), ts)
+
 def pOur : P (Text × OurDecl)
   | "C" :: ts => do
     let (n, ts) ← pText ts
     let (props, ts) ← pCounted pNamedTy ts
-    let (meths, ts) ← pCounted pNamedTy ts
+    let (meths, ts) ← pCounted pSig ts
     let (desc, ts) ← pCounted pText ts
-    some ((n, .cls { props := props, methods := meths, descendants := desc }), ts)
+    some ((n, .cls { props := props, methods := meths.map (fun (m, _, r) => (m, r)),
+                     mparams := meths.map (fun (m, ps, _) => (m, ps)), descendants := desc }), ts)
   | "N" :: ts => do
     let (n, ts) ← pText ts; let (lits, ts) ← pCounted pText ts; some ((n, .enum lits), ts)
   | "P" :: ts => do
     let (n, ts) ← pText ts
     match ts with
-    | p :: ts => do let p ← decPrim p; some ((n, .cprim p), ts)
-    | [] => none
+    | p :: c :: ts => do
+      let p ← decPrim p
+      let c ← (match c with | "0" => some false | "1" => some true | _ => none)
+      let (desc, ts) ← pCounted pText ts
+      some ((n, .cprim p c desc), ts)
+    | _ => none
   | _ => none
 
 def pFn : P FnSig := fun ts => do
-  let (n, ts) ← pText ts; let (k, ts) ← pNat ts; let (r, ts) ← pTy ts
-  some ({ name := n, nargs := k, returns := r }, ts)
+  let ((n, ps, r), ts) ← pSig ts
+  some ({ name := n, params := ps, returns := r }, ts)
 
 def pDecls : P Decls := fun ts => do
   let (ours, ts) ← pCounted pOur ts
@@ -103,12 +114,18 @@ def encErr : Err → String
   | .literalNotFound => "literalNotFound" | .instanceOptional => "instanceOptional"
   | .instanceNotInstance => "instanceNotInstance" | .collectionOptional => "collectionOptional"
   | .indexOptional => "indexOptional" | .indexOnNonList => "indexOnNonList" | .indexNotInt => "indexNotInt"
-  | .leftOptional => "leftOptional" | .rightOptional => "rightOptional"
+  | .leftOptional => "leftOptional" | .rightOptional => "rightOptional" | .cmpNotOrderable => "cmpNotOrderable"
   | .isInMemberOptional => "isInMemberOptional" | .containerOptional => "containerOptional"
-  | .antecedentOptional => "antecedentOptional" | .methodMemberOptional => "methodMemberOptional"
+  | .memberUnhashable => "memberUnhashable" | .memberNotSamePrim => "memberNotSamePrim"
+  | .containerNotContainer => "containerNotContainer"
+  | .antecedentOptional => "antecedentOptional" | .antecedentNotBool => "antecedentNotBool"
+  | .consequentNotBool => "consequentNotBool" | .methodMemberOptional => "methodMemberOptional"
   | .notAMethod => "notAMethod" | .notAFunction => "notAFunction"
+  | .argCount => "argCount" | .argNotPassable => "argNotPassable" | .lenArgCount => "lenArgCount"
+  | .lenArgOptional => "lenArgOptional" | .lenKind => "lenKind"
   | .isNoneOnNonOptional => "isNoneOnNonOptional" | .isNotNoneOnNonOptional => "isNotNoneOnNonOptional"
-  | .operandOptional => "operandOptional" | .unknownName => "unknownName" | .valueOptional => "valueOptional"
+  | .operandOptional => "operandOptional" | .operandNotBool => "operandNotBool" | .unknownName => "unknownName"
+  | .valueOptional => "valueOptional" | .valueNotBool => "valueNotBool" | .bodyNotBool => "bodyNotBool"
   | .leftNotNumeric => "leftNotNumeric" | .rightNotNumeric => "rightNotNumeric" | .mixFloatInt => "mixFloatInt"
   | .fvOptional => "fvOptional" | .varAlreadyDefined => "varAlreadyDefined" | .iterOptional => "iterOptional"
   | .iterNotList => "iterNotList" | .startOptional => "startOptional" | .endOptional => "endOptional"
